@@ -405,6 +405,11 @@ function canary() {
   try { [...mkIt(900008, 2)].forEach(function(v){ if (v == 1) throw new Error('c'); }); } catch (e) { r += P(900010); }
   Promise.resolve(1).then(function(){ P(900011); return Promise.reject(2); }).catch(function(){ P(900012); }).finally(function(){ P(900013); });
   (async function(){ P(900014); await null; P(900015); await null; P(900016); })();
+  // a job that enqueues several jobs while other jobs of its own batch are still waiting (job-queue buffers left over
+  // from an aborted run must not be shared)
+  Promise.resolve(1).then(function(){ P(900040); Promise.resolve().then(function(){ P(900041); }); Promise.resolve().then(function(){ P(900042); Promise.resolve().then(function(){ P(900045); }); }); Promise.resolve().then(function(){ P(900046); }); });
+  Promise.resolve(2).then(function(){ P(900043); Promise.resolve().then(function(){ P(900047); }); });
+  Promise.resolve(3).then(function(){ P(900044); });
   r += NR0();
   r += new Error('trace').stack.split('\n').length;
   return r;
